@@ -22,9 +22,9 @@ const (
 	Hour        = real.Hour
 )
 
-func Now() Time                  { return real.Unix(0, 0) }
-func Since(t Time) Duration      { return 0 }
-func Unix(s, ns int64) Time      { return real.Unix(s, ns) }
+func Now() Time             { return real.Unix(0, 0) }
+func Since(t Time) Duration { return 0 }
+func Unix(s, ns int64) Time { return real.Unix(s, ns) }
 
 type Ticker struct {
 	C       <-chan Time
